@@ -25,11 +25,9 @@ working directory and back), built with `Builder`, and compared with the pure-fi
 root directory is replaced by a virtual root of the same depth so that observables are stable.
 The oracle looks at the implementation alone (see `oracle`).
 
-Recorded finding (reported by the oracle only if KNOWN_FINDINGS has a C06 line with key=parent-of-dotdot-source,
-or with C06_STRICT_PARENT=1): `!path:parent(n)` uses the lexical `pathlib` parents of the source name, so for a
-file reached under a relative name with a leading `..` (working directory not above the file) the n-th parent
-beyond the named directories is not the n-th ancestor directory of the file (`../m/f.yaml`, parent(2) -> cwd).
-The model is faithful to the code here, so the correspondence is unaffected."""
+`!path:parent(n)` is checked against the n-th ancestor DIRECTORY of the file the node was written in, also when the
+file was reached under a relative name with `..` components (repo fix D25; before it the lexical `pathlib` parents of
+the source name were used, `../m/f.yaml`, parent(2) -> cwd).  Such cases are ordinary violations again."""
 import os, sys, json, copy, re, shutil, tempfile, ast, posixpath
 from common import *          # first: puts the working tree of the implementation on sys.path
 from framework import Prop
@@ -331,7 +329,7 @@ def known_keys():
         pass
     return out
 KEY_DOTDOT = 'parent-of-dotdot-source'
-STRICT_DOTDOT = KEY_DOTDOT in known_keys() or os.environ.get('C06_STRICT_PARENT') == '1'
+STRICT_DOTDOT = True      # D25 is repaired in /repo
 
 def strip_src(t):
     """tree dump without source-file attributes"""
@@ -698,8 +696,6 @@ class C06(Prop):
         return None if loc == exp else f'!path:{ref} {comps} written in {file_abs} denotes {loc}, expected {exp}'
 
     def finding_key(self, case, desc):
-        if desc and desc.endswith('(source name with leading ..)'):
-            return KEY_DOTDOT
         return None
 
     # ------------------------------------------------------------------ bookkeeping
